@@ -362,7 +362,50 @@ class Real:
             return iter(objs)
         return (o for o in objs)
 
-    def call(self, name: str, objs: List[Any], form: int = 2):
+    OPERATORS = {"__and__": "and_", "__or__": "or_", "__xor__": "xor", "__sub__": "sub", "__eq__": "eq",
+                 "__getitem__": "getitem"}
+
+    def resolve(self, name: str):
+        """-> (callable as found on the class / module, is_method, operand parameter names from inspect.signature)"""
+        import inspect
+
+        fam, m = name.split(".", 1)
+        owner = {"Geometry": self.gmod.Geometry, "BoundingBox": self.gmod.BoundingBox, "GeoBox": self.gbmod.GeoBox,
+                 "GeoboxTiles": self.gbmod.GeoboxTiles, "geom": self.gmod, "geobox": self.gbmod}[fam]
+        fn = getattr(owner, m)
+        is_method = fam in ("Geometry", "BoundingBox", "GeoBox", "GeoboxTiles")
+        names = [p.name for p in inspect.signature(fn).parameters.values()
+                 if p.kind in (p.POSITIONAL_ONLY, p.POSITIONAL_OR_KEYWORD)]
+        return fn, is_method, names
+
+    def call_forms(self, name: str) -> List[str]:
+        """the call forms that exist for this operation (whether they are *accepted* is what is checked)"""
+        _, is_method, _ = self.resolve(name)
+        m = name.split(".", 1)[1]
+        forms = ["positional", "keyword"]
+        if is_method:
+            forms.append("allkeyword")
+        if m in self.OPERATORS:
+            forms.append("operator")
+        return forms
+
+    def call(self, name: str, objs: List[Any], form: int = 2, callform: str = "positional"):
+        if callform != "positional":
+            import operator
+
+            fn, is_method, pn = self.resolve(name)
+            m = name.split(".", 1)[1]
+            iterable = not is_method and len(pn) >= 1 and (m.endswith("_conservative") or m in (
+                "common_crs", "multigeom", "unary_union", "unary_intersection", "bbox_union", "bbox_intersection"))
+            if callform == "operator":
+                out = getattr(operator, self.OPERATORS[m])(*objs)
+            elif iterable:
+                out = fn(**{pn[0]: (list(objs) if m.endswith("_conservative") else self.as_form(objs, form))})
+            elif callform == "keyword" and is_method:
+                out = getattr(objs[0], m)(**dict(zip(pn[1:], objs[1:])))
+            else:  # keyword for module functions, allkeyword for methods (unbound)
+                out = fn(**dict(zip(pn, objs)))
+            return list(out) if m == "split" else out
         fam, m = name.split(".", 1)
         if fam == "Geometry":
             out = getattr(self.gmod.Geometry, m)(*objs)
@@ -398,6 +441,7 @@ class Ctx:
         self.gmod, self.gbmod, self.CRS, self.CRSMismatchError = _mods()
         self.cases: List[Dict[str, Any]] = []
         self._rawcache: Dict[Any, Any] = {}
+        self.formok: Dict[Tuple[str, str], bool] = {}
 
     # ---- operand construction
     def tagged(self, raw, crs):
@@ -408,12 +452,20 @@ class Ctx:
             return gb.GeoBox(raw[0], raw[1], crs)
         return gm.Geometry(raw, crs)
 
-    def add(self, name: str, ents, raws, kind: str):
+    def add(self, name: str, ents, raws, kind: str, callform: str = "positional"):
         """one strict-table case: operands = raws tagged with the pool entries `ents`"""
         tags = [self.pool.rec(e[2]) for e in ents]
         line = f"c01 run {name} [{','.join(tags)}]"
+        if callform != "positional":
+            k = (name, callform)
+            if k not in self.formok:
+                self.formok[k] = run_driver("C01", [f"c01 callform {name} {callform}"])[0] == "accepted"
+            if not self.formok[k]:
+                # the model says this call form is refused by Python's argument binding, whatever the operands
+                line = f"c01 callform {name} {callform}"
+            kind = f"{kind}|{callform}"
         self.cases.append({"line": line, "name": name, "ents": ents, "raws": raws, "kind": kind,
-                           "form": len(self.cases)})
+                           "form": len(self.cases), "callform": callform})
 
     # ---- outcome of the real call in the model's vocabulary
     def res_tag(self, name: str, spec, res) -> str:
@@ -442,7 +494,7 @@ class Ctx:
         try:
             with warnings.catch_warnings():
                 warnings.simplefilter("ignore")
-                res = self.real.call(name, objs, case.get("form", 2))
+                res = self.real.call(name, objs, case.get("form", 2), case.get("callform", "positional"))
         except Exception as e:  # pylint: disable=broad-except
             exc = e
         strip = [self.raw.strip(o) for o in objs]
@@ -499,6 +551,11 @@ class Ctx:
         differ = any(t != truths[0] for t in truths)
         cdesc = {"op": name, "tags": labels, "kind": case["kind"], "line": case["line"]}
         exc = info["raised"]
+        if case.get("callform", "positional") != "positional" and isinstance(exc, TypeError):
+            # this call form is refused by Python's argument binding: nothing was combined (whether it *should* be
+            # refused is pinned by the `c01 callform` correspondence line)
+            R.oracle(True, f"callform-refused:{name}", cdesc, "", sig="callform-refused", trivial=True)
+            return
         if differ:
             ok = exc is not None and isinstance(exc, ValueError)
             what = (f"{name} on CRSs {labels} ({case['kind']}) " +
@@ -568,6 +625,27 @@ def gen_strict(C: Ctx):
             raws, kind = [gb0["g0"], gb0["shift"]], "geobox:g0/shift"
         for ea, eb in itertools.product(wide, wide):
             C.add(name, [ea, eb], raws, kind)
+    # --- every CALL FORM of every operation (keyword by the real parameter names, unbound all-keyword, operator) x every
+    #     ordered pair of the base pool (+ the odd operand at every position for the stream operations)
+    for name, sp in specs.items():
+        fam = name.split(".")[0]
+        if fam == "Geometry" or name.startswith("geom.") and "bbox" not in name:
+            raws, kind = [kinds["polygon"], partners["P"], kinds["polygon+hole"]], "polys"
+        elif fam == "BoundingBox" or "bbox" in name:
+            raws, kind = [(0.0, 0.0, 2.0, 2.0), (1.0, -1.0, 3.0, 1.5), (0.5, 0.5, 1.0, 4.0)], "bbox"
+        else:
+            raws, kind = [gb0["g0"], gb0["shift"], gb0["far"]], "geobox:g0/shift/far"
+        for cf in C.real.call_forms(name):
+            if cf == "positional":
+                continue
+            for ea, eb in pairs:
+                C.add(name, [ea, eb], raws[:2], kind if sp["arity"] == "n" or fam != "Geometry" else "polygon/P", callform=cf)
+            if sp["arity"] == "n":
+                for pos in range(3):
+                    for base, odd in itertools.permutations(small, 2):
+                        es = [base] * 3
+                        es[pos] = odd
+                        C.add(name, es, raws, kind, callform=cf)
     # --- EMPTY operands at every position of every operation
     from shapely import geometry as sg
 
@@ -858,93 +936,115 @@ def check_conv_eq(C: Ctx):
     for name in model_names:
         if name not in ops:
             raise KeyError(f"no adapter for converting operation {name}")
-    for name, (fn, okinds) in ops.items():
-        for es, eo in itertools.product(pool, pool):
-            for ok in okinds:
-                gbox = gb.GeoBox(shape, A, None) if es[2] is None else gbox_in(es[2], 16, outer)
-                pts = in_crs(eo[2])
-                if ok == "geom":
-                    other = gm.polygon(pts, eo[2])
-                elif ok == "bbox":
-                    other = gm.polygon(pts, eo[2]).boundingbox
-                else:
-                    other = gbox_in(eo[2])
-                is_bbox = ok == "bbox"
-                line = f"c01 conv {name} {bool_s(is_bbox)} {C.pool.rec(es[2])} {C.pool.rec(eo[2])}"
-                info: Dict[str, Any] = {}
+    # the same operations called by keyword (parameter names from inspect.signature)
+    import inspect
 
-                def f():
-                    try:
-                        with warnings.catch_warnings():
-                            warnings.simplefilter("ignore")
-                            v = fn(gbox, other)
-                    except Exception as e:  # pylint: disable=broad-except
-                        info["exc"] = e
-                        return err_str(e)
-                    info["val"] = v
-                    # which path produced it?  compare with the operand re-tagged / pre-converted by the harness
-                    path = "?"
-                    if eo[2] is None:
-                        both_none_same = es[2] is None and (
-                            (ok == "geom" and name == "GeoboxTiles.tiles") or name == "GeoboxTiles.grid_intersect")
-                        path = "same" if both_none_same else "pixel"
+    def kw_variant(name):
+        cls, m = name.split(".", 1)
+        klass = gb.GeoBox if cls == "GeoBox" else gb.GeoboxTiles
+        pname = [q.name for q in inspect.signature(getattr(klass, m)).parameters.values()][1]
+
+        def f(g, o):
+            tgt = g if cls == "GeoBox" else gb.GeoboxTiles(g, (4, 4))
+            arg = gb.GeoboxTiles(o, (4, 4)) if m == "grid_intersect" else o
+            out = getattr(tgt, m)(**{pname: arg})
+            return sorted(out) if m == "tiles" else out
+
+        return f
+
+    ops_kw = {name: (kw_variant(name), okinds) for name, (_f, okinds) in ops.items()}
+
+    def run_table(table, pl, form):
+        for name, (fn, okinds) in table.items():
+            for es, eo in itertools.product(pl, pl):
+                for ok in okinds:
+                    gbox = gb.GeoBox(shape, A, None) if es[2] is None else gbox_in(es[2], 16, outer)
+                    pts = in_crs(eo[2])
+                    if ok == "geom":
+                        other = gm.polygon(pts, eo[2])
+                    elif ok == "bbox":
+                        other = gm.polygon(pts, eo[2]).boundingbox
                     else:
-                        cands = []
+                        other = gbox_in(eo[2])
+                    is_bbox = ok == "bbox"
+                    line = f"c01 conv {name} {bool_s(is_bbox)} {C.pool.rec(es[2])} {C.pool.rec(eo[2])}"
+                    info: Dict[str, Any] = {}
+
+                    def f():
                         try:
-                            if ok == "gbox":
-                                same_o = gb.GeoBox(other.shape, other.affine, es[2])
-                            elif ok == "bbox":
-                                same_o = gm.BoundingBox(*other.bbox, crs=es[2])
-                            else:
-                                same_o = other.assign_crs(es[2])
                             with warnings.catch_warnings():
                                 warnings.simplefilter("ignore")
-                                cands.append(("same", canon(fn(gbox, same_o))))
-                        except Exception:  # pylint: disable=broad-except
-                            pass
-                        same_truth = es[1] == eo[1]
-                        if same_truth:
-                            path = "same" if cands and cands[0][1] == canon(v) else "?same-differs"
+                                v = fn(gbox, other)
+                        except Exception as e:  # pylint: disable=broad-except
+                            info["exc"] = e
+                            return err_str(e)
+                        info["val"] = v
+                        # which path produced it?  compare with the operand re-tagged / pre-converted by the harness
+                        path = "?"
+                        if eo[2] is None:
+                            both_none_same = es[2] is None and (
+                                (ok == "geom" and name == "GeoboxTiles.tiles") or name == "GeoboxTiles.grid_intersect")
+                            path = "same" if both_none_same else "pixel"
                         else:
-                            if ok != "gbox":
-                                poly = other if ok == "geom" else other.polygon
-                                try:
-                                    with warnings.catch_warnings():
-                                        warnings.simplefilter("ignore")
-                                        conv = poly.to_crs(es[2], check_and_fix=(name == "GeoboxTiles.tiles"))
-                                        if name == "GeoboxTiles.range_from_bbox":
-                                            conv = conv.boundingbox
-                                        want = canon(fn(gbox, conv))
-                                    path = "converted" if want == canon(v) else "?converted-differs"
-                                except Exception:  # pylint: disable=broad-except
-                                    path = "?conversion-failed"
-                            elif name == "GeoboxTiles.grid_intersect":
-                                # goes through both footprints in EPSG:4326; only the verdict is compared
-                                path = "converted"
+                            cands = []
+                            try:
+                                if ok == "gbox":
+                                    same_o = gb.GeoBox(other.shape, other.affine, es[2])
+                                elif ok == "bbox":
+                                    same_o = gm.BoundingBox(*other.bbox, crs=es[2])
+                                else:
+                                    same_o = other.assign_crs(es[2])
+                                with warnings.catch_warnings():
+                                    warnings.simplefilter("ignore")
+                                    cands.append(("same", canon(fn(gbox, same_o))))
+                            except Exception:  # pylint: disable=broad-except
+                                pass
+                            same_truth = es[1] == eo[1]
+                            if same_truth:
+                                path = "same" if cands and cands[0][1] == canon(v) else "?same-differs"
                             else:
-                                try:
-                                    with warnings.catch_warnings():
-                                        warnings.simplefilter("ignore")
-                                        want = canon(fn(gbox, other.extent.to_crs(es[2])))
-                                    path = "converted" if want == canon(v) else "?converted-differs"
-                                except Exception:  # pylint: disable=broad-except
-                                    path = "?conversion-failed"
-                    return f"OK path={path} tag={tag_of(v)}"
+                                if ok != "gbox":
+                                    poly = other if ok == "geom" else other.polygon
+                                    try:
+                                        with warnings.catch_warnings():
+                                            warnings.simplefilter("ignore")
+                                            conv = poly.to_crs(es[2], check_and_fix=(name == "GeoboxTiles.tiles"))
+                                            if name == "GeoboxTiles.range_from_bbox":
+                                                conv = conv.boundingbox
+                                            want = canon(fn(gbox, conv))
+                                        path = "converted" if want == canon(v) else "?converted-differs"
+                                    except Exception:  # pylint: disable=broad-except
+                                        path = "?conversion-failed"
+                                elif name == "GeoboxTiles.grid_intersect":
+                                    # goes through both footprints in EPSG:4326; only the verdict is compared
+                                    path = "converted"
+                                else:
+                                    try:
+                                        with warnings.catch_warnings():
+                                            warnings.simplefilter("ignore")
+                                            want = canon(fn(gbox, other.extent.to_crs(es[2])))
+                                        path = "converted" if want == canon(v) else "?converted-differs"
+                                    except Exception:  # pylint: disable=broad-except
+                                        path = "?conversion-failed"
+                        return f"OK path={path} tag={tag_of(v)}"
 
-                out = R.corr(line, f, sig=f"conv|{name}|" + (
-                    "none-self" if es[2] is None and eo[2] is not None else "none-other" if eo[2] is None else
-                    "same" if es[1] == eo[1] else "differ"))
-                # oracle: two *known* different CRSs are never combined as they are; a CRS-less grid cannot
-                # take geo-referenced input
-                if es[2] is not None and eo[2] is not None and es[1] != eo[1]:
-                    R.oracle(out.startswith("ERR") or "path=converted" in out, f"conv-mixed:{name}",
-                             {"line": line, "operand": ok}, f"{name}: operand in another CRS was not converted: {out}")
-                if es[2] is None and eo[2] is not None:
-                    R.oracle(out.startswith("ERR"), f"conv-crsless-grid:{name}", {"line": line, "operand": ok},
-                             f"{name}: grid without CRS accepted a geo-referenced operand: {out}")
-                if es[2] is not None and eo[2] is not None and es[1] == eo[1]:
-                    R.oracle("path=same" in out, f"conv-equal-crs:{name}", {"line": line, "operand": ok},
-                             f"{name}: equal CRSs (maybe respelled) not treated as equal: {out}")
+                    out = R.corr(line, f, sig=f"conv|{name}|{form}|" + (
+                        "none-self" if es[2] is None and eo[2] is not None else "none-other" if eo[2] is None else
+                        "same" if es[1] == eo[1] else "differ"))
+                    # oracle: two *known* different CRSs are never combined as they are; a CRS-less grid cannot
+                    # take geo-referenced input
+                    if es[2] is not None and eo[2] is not None and es[1] != eo[1]:
+                        R.oracle(out.startswith("ERR") or "path=converted" in out, f"conv-mixed:{name}",
+                                 {"line": line, "operand": ok, "callform": form}, f"{name}: operand in another CRS was not converted: {out}")
+                    if es[2] is None and eo[2] is not None:
+                        R.oracle(out.startswith("ERR"), f"conv-crsless-grid:{name}", {"line": line, "operand": ok, "callform": form},
+                                 f"{name}: grid without CRS accepted a geo-referenced operand: {out}")
+                    if es[2] is not None and eo[2] is not None and es[1] == eo[1]:
+                        R.oracle("path=same" in out, f"conv-equal-crs:{name}", {"line": line, "operand": ok, "callform": form},
+                                 f"{name}: equal CRSs (maybe respelled) not treated as equal: {out}")
+
+    run_table(ops, pool, "positional")
+    run_table(ops_kw, C.pool.entries, "keyword")
 
     # equality tests
     kinds, _ = shapes()
@@ -962,10 +1062,69 @@ def check_conv_eq(C: Ctx):
             for raw_eq in (True, False):
                 a, b = mk[name](ea[2], True), mk[name](eb[2], raw_eq)
                 line = f"c01 eq {C.pool.rec(ea[2])} {C.pool.rec(eb[2])} {bool_s(raw_eq)}"
-                out = R.corr(line, lambda a=a, b=b: bool_s(bool(a == b)), sig=f"eq|{name}")
+                cls = type(a)
+                pname = [q.name for q in inspect.signature(cls.__eq__).parameters.values()][1]
+                forms = {"operator": lambda a=a, b=b: a == b, "method": lambda a=a, b=b: a.__eq__(b),
+                         "keyword": lambda a=a, b=b: a.__eq__(**{pname: b}),
+                         "reflected": lambda a=a, b=b: b == a}
+                for fname, ff in forms.items():
+                    if fname != "operator" and ea not in C.pool.entries:
+                        continue
+                    ln = line if fname != "reflected" else f"c01 eq {C.pool.rec(eb[2])} {C.pool.rec(ea[2])} {bool_s(raw_eq)}"
+                    out = R.corr(ln, lambda ff=ff: bool_s(bool(ff())), sig=f"eq|{name}|{fname}")
+                    if ea[1] != eb[1]:
+                        R.oracle(out == "F", f"eq-ignores-crs:{name}", {"line": ln, "op": name, "callform": fname},
+                                 f"{name} ({fname} form): objects in different CRSs compare equal")
+
+
+# --------------------------------------------------------------------------- numeric options in every numeric spelling
+def check_numeric_spellings(C: Ctx):
+    """`tol` of overlap_roi / bounding_box_in_pixel_domain: a numpy scalar, 0-d array, int, Fraction or Decimal must
+    behave exactly like the equal python float — with equal CRSs (same ROI / same refusal) and with different CRSs
+    (still the CRS ValueError)."""
+    from decimal import Decimal
+
+    import numpy as np
+    from affine import Affine
+
+    R = C.R
+    gb = C.gbmod
+    ents = C.pool.entries
+    A0 = Affine(0.25, 0, 0, 0, -0.25, 2)
+    off = 3 + 2.0 ** -22  # pixels: not on the grid by 2^-22 of a pixel
+    A1 = A0 * Affine.translation(off, 1)
+    values = {2.0 ** -20: "above-offset", 2.0 ** -24: "below-offset", 0.0: "zero"}
+    for v, vk in values.items():
+        spell = {"float": float(v), "np.float64": np.float64(v), "np.float32": np.float32(v), "0-d array": np.array(v),
+                 "Fraction": Fraction(v), "Decimal": Decimal(v)}
+        if v == 0:
+            spell.update({"int": 0, "np.int32": np.int32(0), "np.int64": np.int64(0), "bool": False})
+        for ea, eb in itertools.product(ents[:4], ents[:4]):
+            a, b = gb.GeoBox((8, 8), A0, ea[2]), gb.GeoBox((6, 7), A1, eb[2])
+            for opname, fn in (("GeoBox.overlap_roi", lambda t, a=a, b=b: a.overlap_roi(b, t)),
+                               ("GeoBox.overlap_roi[kw]", lambda t, a=a, b=b: a.overlap_roi(b, tol=t)),
+                               ("geobox.bounding_box_in_pixel_domain",
+                                lambda t, a=a, b=b: gb.bounding_box_in_pixel_domain(b, a, t))):
+                def outcome(t):
+                    try:
+                        with warnings.catch_warnings():
+                            warnings.simplefilter("ignore")
+                            return repr(fn(t))
+                    except Exception as e:  # pylint: disable=broad-except
+                        return err_str(e)
+
+                want = outcome(spell["float"])
+                for sk, sv in spell.items():
+                    got = outcome(sv)
+                    exotic = sk in ("0-d array", "Fraction", "Decimal")
+                    ok = got == want or (exotic and got == "ERR:TypeError")
+                    R.oracle(ok, f"numeric-spelling:{opname.split('[')[0]}",
+                             {"op": opname, "tol": repr(sv), "spelling": sk, "tags": [ea[0], eb[0]]},
+                             f"{opname} with tol={sv!r} ({sk}) gives {got}, with the equal python float {want}",
+                             sig=f"spelling|{sk}|{vk}")
                 if ea[1] != eb[1]:
-                    R.oracle(out == "F", f"eq-ignores-crs:{name}", {"line": line, "op": name},
-                             f"{name}: objects in different CRSs compare equal")
+                    R.oracle(want in ("ERR:ValueError", "ERR:CRSMismatch"), f"mixed-crs-accepted:{opname.split('[')[0]}",
+                             {"op": opname, "tags": [ea[0], eb[0]], "tol": v}, f"{opname} with tol={v}: {want}")
 
 
 # --------------------------------------------------------------------------- discovery
@@ -1034,6 +1193,7 @@ def run(R: Run):
     run_strict(C)
     gen_bbox_exact(C)
     check_conv_eq(C)
+    check_numeric_spellings(C)
     R.exhaustive = False
     R.extra["ops_in_table"] = len(C.specs)
     R.extra["ops_discovered"] = len(found)
